@@ -332,6 +332,30 @@ gossip layer, see `C04_addrStable_not_guaranteed` below) → `C04_mirror` → "s
 (`NodeInv.agree`) → C05 (`SysInv.owner_shows`). -/
 
 open Piko.Gossip in
+/-- **What every node of every reachable system state satisfies** (lemmas (b) and (c) of the
+composition): with `evs` = everything the node's watcher has been told so far,
+* C14: the fold of `evs` is the node's visible gossip state;
+* the trace hypotheses `WellFormed` and `NoLivenessAfterLeave` of `C04_table_spec` hold of `evs`;
+* `AddrStable` holds of `evs` with the address-key deletions filtered out - which the syncer cannot
+  tell from `evs` itself (`AddrStable evs` as such is false in general: `C04_addrStable_not_guaranteed`);
+* the node's syncer (routing-table rows of the other nodes, pending map) is the pure syncer of
+  `Cluster/Syncer.lean` run over `evs` from `newSyncer`. -/
+theorem C04_system_node (ops : List SysOp) (hall : SysAllowed ops) (r : String) (x : SysNode)
+    (hr : (Sys.runRev ops).node r = some x) :
+    C14.foldOK (Gossip.foldEvents [] x.evs) x.mgr.gossip ∧
+    WellFormed r x.evs ∧ NoLivenessAfterLeave r x.evs ∧ AddrStable r (dropAddrDeletes x.evs) ∧
+    (Sync.new { id := r }).run (dropAddrDeletes x.evs) = (Sync.new { id := r }).run x.evs ∧
+    ∀ a, a ≠ r →
+      x.sync.table.nodes.find a = ((Sync.new { id := r }).run x.evs).table.nodes.find a ∧
+      x.sync.pending.find a = ((Sync.new { id := r }).run x.evs).pending.find a := by
+  obtain ⟨sd, g, hsd, hg, rfl⟩ := Sys.node_eq hr
+  have h := (sysInv_runRev ops hall).node r sd g hsd hg
+  refine ⟨h.fold, C04_wellFormed_of_C14 r sd.evs h.evok, h.live, addrStable_filtered r sd.evs h.addr,
+    run_dropAddrDeletes _ _, fun a hne => ?_⟩
+  have hag := h.agree.2 a (by rw [Side.sync_table, h.tlid]; exact hne)
+  exact ⟨congrArg Prod.fst hag, congrArg Prod.snd hag⟩
+
+open Piko.Gossip in
 /-- **C04, first sentence, about the one system model.**  In every reachable state, for nodes
 `r ≠ a`: if `r`'s gossip view `V` of `a` has `a`'s own version (caught up) and `a` has not left, then
 `r`'s routing table has a row for `a` (and `a` is not pending) with `a`'s proxy and admin address and
